@@ -390,6 +390,7 @@ def assemble(unit_dir, mode='verify'):
             fn['inlined'] = r['rewrites'].get('R23.inline_helper_needs_proof_aid', 0)   # straight-line read-only helpers are inlined exactly
             fn['anchors_lost'] = len(r.get('missing_anchors', []))
             fn['loop_kinds'] = list(r.get('loop_kinds') or [])
+            fn['anchor_depths'] = [v for k, v in sorted((int(k), v) for k, v in (r.get('anchor_depths') or {}).items())]
             fn['first_line'] = len(g.lines) + 1
             retname = c.opts.get('ret', 'r')
             if r['impl_header']:
